@@ -1,4 +1,5 @@
 import Brax.Lemmas.KinVel
+import Brax.Lemmas.ScanLevels
 /-!
 # C01 — forward kinematics matches the reference engine for every model and pose
 
@@ -155,6 +156,16 @@ theorem forward_vel_eq_mj_partial (s : Sys ℝ) (q qd : List ℝ) (h : KinOK s q
     rw [normalize4_unit h2]
     exact h1
 
+
+/-- **Layer B, stage 2 (restated from `Lemmas/ScanLevels`).**  `scan.tree` as coded — links grouped by
+depth, the function applied once per level, the carry of the previous level re-indexed through
+`parent_map`, outputs concatenated and reordered to link order — computes exactly the per-link
+recursion `scanFwd` that all theorems above are stated with, for every forest (any size, any
+shape) whose parents precede their children. -/
+theorem scanTree_levels_eq_recursion {β γ : Type} (f : Option β → γ → β) (ps : List Int) (as : List γ)
+    (dflt : γ) (dfltY : β) (hlen : ps.length = as.length) (hwf : ParentsWF ps) :
+    scanTreeLevels f ps as dflt dfltY = scanFwd f ps as :=
+  scanTreeLevels_eq_scanFwd f ps as dflt dfltY hlen hwf
 
 /-! ## non-vacuity: a concrete system and state satisfying `KinOK`
 
